@@ -217,6 +217,19 @@ def case_misc(col, p):
                 if not np.array_equal(got, ex):
                     col.violation('C08:project:mask_window', dict(p, m=m, h=h), {'unmasked_inside_window': [int(j) for j in np.where(ex & ~got)[0]][:10],
                                                                                  'masked_outside_window': [int(j) for j in np.where(got & ~ex)[0]][:10]})
+        # many masked source entries at once (a block of the high-frequency classes): the target mask is the union of their windows
+        for m in sorted(set([max(1, n // 10), n // 3, n - 1])):
+            for lo_ in sorted(set([1, n // 3, n - 2])):
+                fs = dadi.Spectrum(np.ones(n + 1), mask_corners=False)
+                fs.mask[lo_:] = True
+                got = np.ma.getmaskarray(fs.project([m]))
+                col.tick(transitions=1)
+                ex = np.zeros(m + 1, bool)
+                for h in range(lo_, n + 1):
+                    ex[max(0, m - (n - h)):min(m, h) + 1] = True
+                if not np.array_equal(got, ex):
+                    col.violation('C08:project:mask_window', dict(p, m=m, masked_from=lo_), {'unmasked_inside_union': [int(j) for j in np.where(ex & ~got)[0]][:10],
+                                                                                           'masked_outside_union': [int(j) for j in np.where(got & ~ex)[0]][:10]})
         # two dimensions, one large axis
         fs = dadi.Spectrum(np.ones((n + 1, 4)), mask_corners=False)
         fs.mask[n // 2, 1] = True
